@@ -41,10 +41,11 @@ L3 = b'</q>;title="say \\"hi\\"",</r>'       # a quoted-string with escaped quot
 # (RFC 9176 section 5.3 example) a link whose target is elsewhere and whose anchor is relative: the anchor resolves against the
 # registration's base, not against the target
 L4 = b'<http://www.example.com/sensors/t123>;anchor="/sensors/temp";rel="describedby",</t>;anchor="x/y"'
+L6 = b'</g>;hreflang="en";hreflang="de",</h>;rt="x"'      # one attribute name twice within a link: both values are the link's
 L5 = b'</e>;title="",</f>;flag'        # an empty attribute value next to a value-less attribute
-LINKS = {"L5": (L5, ["/e", "/f"]), "L1": (L1, ["/a"]), "L2": (L2, ["/b", "/c"]), "L3": (L3, ["/q", "/r"]), "L4": (L4, ["http://www.example.com/sensors/t123", "/t"])}
+LINKS = {"L6": (L6, ["/g", "/h"]), "L5": (L5, ["/e", "/f"]), "L1": (L1, ["/a"]), "L2": (L2, ["/b", "/c"]), "L3": (L3, ["/q", "/r"]), "L4": (L4, ["http://www.example.com/sensors/t123", "/t"])}
 LINK_ANCHORS = {"http://www.example.com/sensors/t123": "/sensors/temp", "/t": "/x/y"}
-LINK_ATTRS = {"/e": {"title": ""}, "/f": {"flag": None}, "http://www.example.com/sensors/t123": {"rel": "describedby"}, "/t": {}, "/a": {"rt": "x"}, "/b": {"if": "y"}, "/c": {}, "/q": {"title": 'say "hi"'}, "/r": {}}
+LINK_ATTRS = {"/g": {"hreflang": "de"}, "/h": {"rt": "x"}, "/e": {"title": ""}, "/f": {"flag": None}, "http://www.example.com/sensors/t123": {"rel": "describedby"}, "/t": {}, "/a": {"rt": "x"}, "/b": {"if": "y"}, "/c": {}, "/q": {"title": 'say "hi"'}, "/r": {}}
 RDP = ["resourcedirectory", ""]
 EPL = ["endpoint-lookup", ""]
 RSL = ["resource-lookup", ""]
@@ -80,6 +81,7 @@ OPS = [
     ("upd", 0, "base=coap://[2001:db8::1]:40000"),
     # a parameter with an empty value is a parameter with an empty value (not a value-less flag) in every lookup
     ("reg", "e2", None, 60, "L5", "room="), ("upd", 0, "x="),
+    ("reg", "e2", None, 120, "L6", None),
 ]
 CORE4 = [("reg", "e1", None, 120, "L2", None), ("reg", "e1", "d1", None, "L1", None), ("reg", "e2", None, 60, "L2", None), ("reg", "e1", None, 0, "L1", None),
          ("badreg", "lt=abc"), ("badreg", "body"), ("upd", 0, "lt=120"), ("upd", 0, "x=2"), ("upd", 0, "ep=e9"), ("upd", 0, "body"), ("upd", 1, "lt=60"),
@@ -418,6 +420,9 @@ def check_lookups(st):
     gota = sorted((h, at.get("anchor")) for h, at in ress if h.split("]:40000")[-1] in LINK_ANCHORS or h in LINK_ANCHORS or any(h.endswith(k) for k in LINK_ANCHORS))
     if gota != wanta:
         viol(st, "resource-lookup", wanta, gota, "cli/rd.py:Registration.get_based_links", "anchor")
+    # a link registered with one attribute name twice comes back with both values (the dictionary view below cannot show that)
+    if any(m["links"] == "L6" for m in lv.values()) and not (b'hreflang="en"' in b and b'hreflang="de"' in b):
+        viol(st, "resource-lookup", 'hreflang="en";hreflang="de" on /g', b.decode("utf8", "replace")[:200], "util/linkformat.py:parse", "repeated-attribute")
     # each link comes back with the attributes it was registered with (an empty value stays an empty value, a flag stays a flag)
     for h, at in ress:
         local = h
@@ -426,7 +431,7 @@ def check_lookups(st):
                 local = h[len(m["base"]):]
         exp_at = LINK_ATTRS.get(local)
         got_at = {k: v for k, v in at.items() if k != "anchor"}
-        if exp_at is not None and got_at != exp_at:
+        if exp_at is not None and local != "/g" and got_at != exp_at:
             viol(st, "resource-lookup", {local: exp_at}, {local: got_at}, "util/linkformat.py:Link.__str__", "attributes")
             break
     if sorted(gotr) != sorted(wantr):
